@@ -454,25 +454,20 @@ func credFlushRule(p *Prog, r *Report, rule string) {
 	r.Check(sends == 1, rule, "cred.(*ManagedServer).enqueueSave:sends", p.posStr(enq.Body.Pos()), "enqueueSave sends on saveQueue", "enqueueSave does not send on saveQueue")
 	// capacity: make(chan struct{}, k) with k >= 1 where saveQueue is initialised
 	capOK := false
+	nInit := 0
 	p.AllFuncs(pkg, func(fc *FuncCtx) {
-		for _, v := range fc.G.V {
-			if v.Node == nil {
-				continue
-			}
-			inspectNoLit(v.Node, func(n ast.Node) bool {
-				kv, ok := n.(*ast.KeyValueExpr)
-				if !ok {
-					return true
-				}
-				if id, ok := kv.Key.(*ast.Ident); ok && id.Name == "saveQueue" {
-					if c, ok := ast.Unparen(kv.Value).(*ast.CallExpr); ok && len(c.Args) == 2 {
-						if k, ok := constInt(fc.Info(), c.Args[1]); ok && k >= 1 {
-							capOK = true
-						}
+		// however the manager is put together: literal key or assignment to the field
+		for _, val := range fieldInits(fc, "saveQueue") {
+			nInit++
+			ok := false
+			if c, isCall := ast.Unparen(val).(*ast.CallExpr); isCall && len(c.Args) == 2 {
+				if id, isId := ast.Unparen(c.Fun).(*ast.Ident); isId && id.Name == "make" {
+					if k, isC := constInt(fc.Info(), c.Args[1]); isC && k >= 1 {
+						ok = true
 					}
 				}
-				return true
-			})
+			}
+			capOK = ok && (capOK || nInit == 1)
 		}
 	})
 	r.Check(capOK, rule, "cred:saveQueue-buffered", "", "saveQueue is created with capacity >= 1, so a non-blocking enqueue while the worker is busy is remembered", "saveQueue is unbuffered: a change made while the worker is saving or cooling down is silently not queued")
